@@ -182,8 +182,11 @@ func (matrix *DenseIntMatrix) SetIdentity() {
   }
 }
 func (matrix *DenseIntMatrix) Reset() {
-  for i := 0; i < len(matrix.values); i++ {
-    matrix.values[i] = 0.0
+  n, m := matrix.Dims()
+  for i := 0; i < n; i++ {
+    for j := 0; j < m; j++ {
+      matrix.values[matrix.index(i, j)] = 0.0
+    }
   }
 }
 func (matrix *DenseIntMatrix) Row(i int) Vector {
